@@ -433,7 +433,7 @@ def main(tier, seed):
                 "cap->code": {str(a): recs[2001 + a]["out"] for a in (0, 49, 50, 127, 128, 1475, 1476, 2000)}})
     validate(chk, rep, recs, "tables")
     recs = []
-    nhdr = 30000 if thorough else 4000
+    nhdr = 50000 if thorough else 4000
     encs = []
     for i in range(nhdr):
         c = random_header(rng, sorted(TYPES)[i % 8])
@@ -452,11 +452,11 @@ def main(tier, seed):
     validate(chk, rep, recs, "strings<=2")
     recs = [rec_dec(s) for s in strings_alpha()]
     chk.extra["class_alphabet_strings"] = len(recs)
-    nrand = 150000 if thorough else 15000
+    nrand = 300000 if thorough else 15000
     for _ in range(nrand):
         recs.append(rec_dec(random_string(rng)))
     nmut = 0
-    for o in encs[:(12000 if thorough else 1500)]:
+    for o in encs[:(20000 if thorough else 1500)]:
         for m in mutations(rng, o):
             recs.append(rec_dec(m))
             nmut += 1
